@@ -12,6 +12,7 @@
   `Shaped pool r v` is exactly "no finding class applies" (`defectMsg pool r v = none`, decidable).
 -/
 import VrlProofs.Lemmas.C26
+import VrlProofs.Lemmas.C26Spec
 
 namespace C26
 open Proto
@@ -96,6 +97,26 @@ theorem roundtrip_partial (P : Prims) (pool : Pool) (hok : pool.Ok = true) (W : 
 theorem uint64_wraps_back (pool : Pool) (ctx : Option Field) (i : Int) (h : inI64 i = true) :
     toValue pool ctx (.u64 (wrapU64 i)) = some (.int i) := by
   simp [toValue, wrapI64_wrapU64 i h]
+
+/-- `dropDefaults` is a normal form: its result is still shaped and sorted, and dropping defaults
+    again changes nothing. -/
+theorem dropDefaults_normal_form (pool : Pool) (r : Nat) (v : Value) (hs : v.Sorted = true)
+    (hsh : Shaped pool r v = true) :
+    Shaped pool r (dropDefaultsMsg pool r v) = true ∧ (dropDefaultsMsg pool r v).Sorted = true ∧
+    dropDefaultsMsg pool r (dropDefaultsMsg pool r v) = dropDefaultsMsg pool r v := by
+  have hd : defect pool ⟨[], 0, .message r, .optional⟩ v = none := by
+    simpa [Shaped, defectMsg] using hsh
+  obtain ⟨h1, h2, _, h4⟩ := dd_field pool _ v hs hd
+  exact ⟨by simp [Shaped, defectMsg, dropDefaultsMsg, h1], h4, h2⟩
+
+/-- After one round trip the value is a fixed point: sending it again gives back exactly the same
+    value. -/
+theorem roundtrip_fixpoint (P : Prims) (pool : Pool) (hok : pool.Ok = true) (W : WireCodec pool) (r : Nat)
+    (v : Value) (hs : v.Sorted = true) (hsh : Shaped pool r v = true) :
+    (encodeProto P pool W r (dropDefaultsMsg pool r v)).bind (parseProto pool W r) =
+      some (dropDefaultsMsg pool r v) := by
+  obtain ⟨h1, h2, h3⟩ := dropDefaults_normal_form pool r v hs hsh
+  rw [roundtrip_partial P pool hok W r _ h2 h1, h3]
 
 /-- What a `float` field loses: a double `b` is sent as the nearest binary32 value
     (`F32.ofF64`: ties to even, overflow to ±∞, underflow to ±0) and comes back as that value widened;
